@@ -53,7 +53,7 @@ def run_case(case, ctx):
     for fr in hist:
         for a in range(len(fr)):
             for b in range(a + 1, len(fr)):
-                if d(fr[a], fr[b]) - T[fr[a]][1] - T[fr[b]][1] < tr.TOL:
+                if tr.overlapping(d(fr[a], fr[b]) - T[fr[a]][1] - T[fr[b]][1], block) is not False:
                     ctx.skip("precondition:in-frame-overlap")
                     return
     try:
@@ -86,10 +86,12 @@ def run_case(case, ctx):
                 ctx.count("pairs-where-periodic-metric-differs")
         if cfg["method"] == "overlap":
             S = D - np.array([[T[a][1] + T[b][1] for b in B] for a in A]).reshape(len(A), len(B))
-            if np.any(np.abs(S) < tr.TOL):
+            if not tr.exact(block) and np.any(np.abs(S) < tr.TOL):
                 ctx.skip("knife-edge:contact")
                 continue
             O = S < 0
+            if np.any(S == 0):
+                ctx.count("exact-contacts-between-frames")
             for sa, sb in got.items():
                 ctx.check("C07.ov-link", bool(O[sa, sb]), {"frame": n, "a": A[sa], "b": B[sb], "surface": S[sa, sb]}, tags)
             for sb in range(len(B)):
@@ -131,4 +133,4 @@ def run_case(case, ctx):
 
 def expected_positive(tier):
     return ["C07.ov-link", "C07.ov-new", "C07.ov-bijective", "C07.di-cutoff", "C07.di-maximal", "C07.di-greedy", "consecutive-nonempty-frames",
-            "bijective-overlap-links", "greedy-links", "competing-candidates", "identity-kept-across-periodic-boundary", "pairs-where-periodic-metric-differs"]
+            "bijective-overlap-links", "greedy-links", "competing-candidates", "identity-kept-across-periodic-boundary", "pairs-where-periodic-metric-differs", "exact-contacts-between-frames"]
